@@ -502,7 +502,11 @@ def total_cases(rng, pools, tier):
         # non-identifier `let` pattern
         pat = rng.choice(["(a, b)", "S { a }", "Some(x)", "[a, b]", "_"])
         add("I:let_pattern", "let %s = %s |> f" % (pat, b0.initial), cfgs)
-        # duplicated options
+        # a `..` / `>.` operand that cannot stand after a dot (fixed finding 1cc49f7: used to panic inside a wrapper)
+        bad = rng.choice(["{ 1 }", "|v| v", '"s"', "(a)", "[1]", "match x { _ => 1 }", "-1", "&x", "'l: { 2 }", "move || 1", "!b", "*p", "if c { a } else { b }"])
+        dot = rng.choice(["..", ">."])
+        add("I:non_member_dot", "%s %s %s" % (b0.initial, dot, bad), cfgs)
+        add("I:non_member_dot", "%s %s >>> %s %s %s" % (b0.initial, rng.choice(["|>", "=>", "?>", "??", "<=", "!>"]), rng.choice(["|> f", "", "~=> g"]), dot, bad), cfgs)
         # duplicated options: same and different values, every value order
         for (k, v, v2) in [("custom_joiner", "j!", "k!"), ("custom_joiner", "j!", "j!"), ("lazy_branches", "true", "true"), ("lazy_branches", "false", "true"),
                            ("lazy_branches", "true", "false"), ("lazy_branches", "false", "false"), ("transpose_results", "false", "false"),
